@@ -3,11 +3,13 @@ CONSTANTS
  SeqLen = 9
  GuardLow = TRUE
  CapHigh = TRUE
+ AcceptAtFloor = TRUE
 INVARIANT TargetInRange
 INVARIANT KBound
 INVARIANT NoStaleRead
 INVARIANT ScaledInTable
 PROPERTY AfterReject
 PROPERTY FlagsFollow
+PROPERTY NoRejectAtFloor
 CONSTRAINT Report
 CHECK_DEADLOCK FALSE
